@@ -94,7 +94,10 @@ PLANS = {
         kinds={"range_malformed", "range_too_wide", "pos_below_lo", "first_occurrence_outside"},
         rule="case = one PGMIndex<K,Eps,EpsRec,Floating> instantiation x one generated sorted array (13 integer / 9 floating "
              "families incl. band-tight staircases, duplicate runs around eps, boundary keys, chunk-seam runs; n=1..5000, "
-             "chunked cases 2^15..2^20 with 1..20 construction threads) x every distinct present key queried; non-trivial = "
+             "chunked cases 2^15..2^20 with 1..20 construction threads; further configurations: #huge (> 2^24 keys), #big "
+             "(0.4-3.5 M keys of uneven density), #sweep (70 shrinking prefixes), #giant (4*10^7 equally spaced keys, optimised "
+             "flavours), gentle curves whose hulls exceed 2^16 vertices, thorough: #enum bounded-exhaustive; the queried object "
+             "is the constructed one or a copied / moved / assigned / relocated one) x every distinct present key queried; non-trivial = "
              ">= 2 distinct keys and (>= 2 segments or a duplicate run); distinct = by hash of (keys, threads)",
         assumptions=ASSUME_COMMON + ["floating-key datasets outside the stated density domain are counted and skipped"],
     ),
@@ -252,7 +255,9 @@ MAPPED_RULE = ("case = one MappedPGMIndex<K,Eps,EpsRec> instantiation (12: i16..
                "(half: families of C01; half: runs of equal keys of length 1,2,3,2^j-1,2^j,2^j+1,eps,2eps+2,2eps+3,10eps, first "
                "key negative/zero/positive, a single run covering the file; 1/3 of the files padded to end on a page boundary in "
                "front of a PROT_NONE guard page) x the five objects {from range, from raw file, reopen A, reopen B, reopen A "
-               "again} constructed in a random valid order and alive simultaneously; ")
+               "again} constructed in a random valid order and alive simultaneously; the range given by vector, deque or reverse "
+               "iterators; output names sometimes pre-existing and longer; 1/25 of the cases with >= 2^15 keys, an off-trend "
+               "tail, a per-case OpenMP thread count and sometimes only one of the two creation paths; ")
 PLANS["C11"] = dict(
     runs=mapped_runs(600, 2000),
     kinds={"lower_bound_mismatch", "upper_bound_mismatch", "count_mismatch", "contains_mismatch", "exposed_sequence_differs"},
